@@ -159,6 +159,41 @@ class ExtractTemp(ast.NodeTransformer):
         return out
 
 
+class IfExpToIf(ast.NodeTransformer):
+    """x = a if c else b  ->  if c: x = a else: x = b ;   return a if c else b  ->  if c: return a else: return b
+    (single-target assignments and returns/yield statements whose value is a conditional expression)"""
+
+    def visit_FunctionDef(self, node):
+        self.generic_visit(node)
+        node.body = self._rewrite(node.body)
+        return node
+
+    def _rewrite(self, stmts):
+        out = []
+        for st in stmts:
+            for fld in ("body", "orelse", "finalbody"):
+                if hasattr(st, fld) and isinstance(getattr(st, fld), list) and not isinstance(st, (ast.FunctionDef, ast.ClassDef)):
+                    setattr(st, fld, self._rewrite(getattr(st, fld)))
+            if isinstance(st, ast.Try):
+                for h in st.handlers:
+                    h.body = self._rewrite(h.body)
+            v = getattr(st, "value", None)
+            if isinstance(st, ast.Assign) and len(st.targets) == 1 and isinstance(v, ast.IfExp):
+                a = ast.copy_location(ast.Assign(targets=st.targets, value=v.body), st)
+                b = ast.copy_location(ast.Assign(targets=st.targets, value=v.orelse), st)
+                out.append(ast.copy_location(ast.If(test=v.test, body=[a], orelse=[b]), st))
+            elif isinstance(st, ast.Return) and isinstance(v, ast.IfExp):
+                out.append(ast.copy_location(ast.If(test=v.test, body=[ast.copy_location(ast.Return(value=v.body), st)],
+                                                    orelse=[ast.copy_location(ast.Return(value=v.orelse), st)]), st))
+            elif isinstance(st, ast.Expr) and isinstance(v, ast.Yield) and isinstance(v.value, ast.IfExp):
+                iv = v.value
+                out.append(ast.copy_location(ast.If(test=iv.test, body=[ast.copy_location(ast.Expr(value=ast.Yield(value=iv.body)), st)],
+                                                    orelse=[ast.copy_location(ast.Expr(value=ast.Yield(value=iv.orelse)), st)]), st))
+            else:
+                out.append(st)
+        return out
+
+
 class WhileTrueBreak(ast.NodeTransformer):
     """while c: B  ->  while True: if not c: break; B     (loops without an else clause)"""
 
@@ -304,6 +339,7 @@ TRANSFORMS: Dict[str, Callable[[], ast.NodeTransformer]] = {
     "extract-return-temp": ExtractTemp,
     "while-true-break": WhileTrueBreak,
     "comprehension-to-loop": CompToLoop,
+    "ifexp-to-if": IfExpToIf,
     "rename-private": RenamePrivate,
     "rename-private-opaque": RenamePrivateOpaque,
     "insert-logging": InsertLogging,
